@@ -229,9 +229,23 @@ def judge(case, m):
                 return True
         return False
 
+    # the references (a seen level substituted on the rows S) do not depend on the mode: they are taken
+    # once, BEFORE the loop, so that the three evaluations of the same frame object follow each other directly
+    ref_common = ref_group = None
+    with core.shadow():
+        try:
+            if dm.common is not None:
+                ref_common = np.asarray(attach.ORIG["common_end"](dm.common, seen).design_matrix, dtype=float)
+        except Exception as e:
+            m.note("seen-frame-raised:" + type(e).__name__)
+        try:
+            if dm.group is not None:
+                ref_group = attach.ORIG["group_end"](dm.group, seen)
+        except Exception as e:
+            m.note("seen-frame-raised:" + type(e).__name__)
     modes = list(MODES)
     rng.shuffle(modes)
-    for mode in modes:  # the mode is changed between evaluations of the SAME design
+    for mode in modes:  # the mode is changed between evaluations of the SAME design on the SAME frame object
         formulae.config["EVAL_UNSEEN_CATEGORIES"] = mode
         m.cls("mode:" + mode, "planted-kind:" + meta[col]["kind"])
         # ---- common ------------------------------------------------------------------------
@@ -257,8 +271,9 @@ def judge(case, m):
                     m.violation("common-unseen-policy", f"mode {mode}: raised {type(exc).__name__}: {exc}", case=case,
                                 key="common:raises-in-" + mode)
                 else:
-                    with core.shadow():
-                        want = np.asarray(attach.ORIG["common_end"](C, seen).design_matrix, dtype=float)
+                    if ref_common is None:
+                        continue
+                    want = ref_common.copy()
                     for nm in touched:
                         sl = C.slices[nm]
                         want[np.ix_(onS, np.arange(sl.start, sl.stop))] = 0.0
@@ -302,8 +317,9 @@ def judge(case, m):
         if exc is not None:
             m.violation("group-new-block", f"mode {mode}: raised {type(exc).__name__}: {exc}", case=case, key="group:raises-in-" + mode)
             continue
-        with core.shadow():
-            ref = attach.ORIG["group_end"](Gm, seen)
+        ref = ref_group
+        if ref is None:
+            continue
         problems = []
         start = 0
         exp_factors = []
